@@ -176,7 +176,7 @@ def errName : Err → String
   | .condHlpNotFound => "condhlp" | .senseless => "senseless" | .wrongLoopLim => "wronglim"
   | .wrongLoopCond => "wrongcond" | .wrongLoopOp => "wrongop" | .unknownCtl => "unknownctl"
   | .unknownType => "unknowntype" | .writer => "writer" | .unknownInspector => "unknownins"
-  | .unknownPool => "unknownpool" | .userFail => "userfail" | .unsupported => "unsupported" | .outOfFuel => "outoffuel"
+  | .unknownPool => "unknownpool" | .userFail => "userfail" | .unsupported => "unsupported" | .outOfFuel => "outoffuel" | .incDepth => "incdepth"
 
 def evStr : Event → String
   | .deferReg t => s!"reg{t}" | .deferRan t => s!"ran{t}" | .acquire t => s!"acq{t}" | .release t => s!"rel{t}"
